@@ -49,8 +49,10 @@ MemoCand(prop, code, key, val, info) == Cand(prop, code, key \notin DOMAIN memo 
 MemoPut(mm, key, val) == IF key \in DOMAIN mm THEN mm ELSE mm @@ (key :> val)
 MemoSet(mm, key, val) == [k \in DOMAIN mm \cup {key} |-> IF k = key THEN val ELSE mm[k]]
 MemoDel(mm, key) == [k \in DOMAIN mm \ {key} |-> mm[k]]
-\* what getOptimalSpline() exposes, without the address: "none" for no spline or an uninitialised one
-Exposed(o) == IF o.null THEN "none" ELSE IF ~o.init THEN "none" ELSE [tsegs |-> o.tsegs, pts |-> o.pts, gbc |-> o.gbc, start |-> o.start, coef |-> o.coef]
+\* what getOptimalSpline() exposes, without the address: NoneExposed for no spline or an uninitialised one
+NoneExposed == [has |-> FALSE]           \* (a record, so that TLC can compare it with the other case)
+Exposed(o) == IF o.null THEN NoneExposed ELSE IF ~o.init THEN NoneExposed
+              ELSE [has |-> TRUE, tsegs |-> o.tsegs, pts |-> o.pts, gbc |-> o.gbc, start |-> o.start, coef |-> o.coef]
 ExpKey(id) == <<"exposed", id>>
 WorstOf(seq0) == LET seq == Force(seq0)
                      F[i \in 0..Len(seq)] == IF i = 0 THEN <<Zero, 0>> ELSE LET p == F[i - 1] IN IF RLt(p[1], seq[i]) THEN <<seq[i], i>> ELSE p
@@ -145,7 +147,7 @@ SetInitStep(ev) ==
 TrSetInit == IsEvent("set_init") /\ sc' = SetInitStep(Ev)
              /\ OSetInit(Ev.obj, l, sc'.n, sc'.valid, sc'.stored) /\ Record
 
-NewStep(ev) == Force([StepRec(VerdictCandsM("new", ev.out, FALSE, FALSE, FALSE, [order |-> ev.order]), <<"optimizers">>) EXCEPT !.cfgs = With(cfgs, ev.obj, NewCfg(ev)), !.memo = MemoSet(memo, ExpKey(ev.obj), "none")])
+NewStep(ev) == Force([StepRec(VerdictCandsM("new", ev.out, FALSE, FALSE, FALSE, [order |-> ev.order]), <<"optimizers">>) EXCEPT !.cfgs = With(cfgs, ev.obj, NewCfg(ev)), !.memo = MemoSet(memo, ExpKey(ev.obj), NoneExposed)])
 TrNew == IsEvent("opt_new") /\ sc' = NewStep(Ev) /\ ONew(Ev.obj) /\ Record
 TrVerdict == IsEvent("verdict") /\ sc' = Force(StepRec(VerdictCands("verdict", Ev.out, cfgs[Ev.obj].valid, FALSE, << >>), <<"verdicts">>))
              /\ UNCHANGED <<opts, umaps, nextWs>> /\ Record
